@@ -367,7 +367,7 @@ pub fn profiles() -> Vec<Profile> {
             owners: &["C18"],
             level: "fault_enumeration",
             tweak: t_c18,
-            quick_runs: 600,
+            quick_runs: 2500,
             thorough_runs: 40000,
             rule: "one run = one seeded history with protect_text steps (all four modes, repeated) followed by the validation phase: validate now, save as JSON with every non-empty resource as stand-off .txt in SimFs and reload, then for EVERY position of every text one substitution, one insertion (1-3 codepoints) and one deletion (1-3 codepoints) of the stand-off file, each followed by a fresh load and a comparison of validate_text per annotation with the model; non-trivial/distinct as for the other lock-step checks",
         },
